@@ -403,10 +403,15 @@ Definition fp_resize (es C st rows0 rows1 : Z) : list access :=
 
 (* `StripedSequence::sample`: `data = uninitialized((length + C - 1) / C)`;
    `for row in data.iter_mut() { for (x, y) in row.iter_mut().zip(..) { *x = symbols[y] } }`:
-   every one of the C one-byte cells of every row is written *)
+   every one of the C one-byte cells of every row is written (then the padding cells once more, see below) *)
 Definition sample_rows (C L : Z) : Z := (L + C - 1) / C.
 Definition fp_sample (C st L : Z) : list access :=
-  flat_map (fun r => map (fun c => wr B_DST (r * st + c) 1 1) (zrange 0 C)) (zrange 0 (sample_rows C L)).
+  let R := sample_rows C L in
+  flat_map (fun r => map (fun c => wr B_DST (r * st + c) 1 1) (zrange 0 C)) (zrange 0 R)
+  (* repair 740d563 (cells past the end of the sequence get the wildcard):
+     `let rows = data.rows(); for i in length..rows * C::USIZE { data[i % rows][i / rows] = A::default_symbol(); }`
+     (checked indices, safe code) *)
+  ++ map (fun i => wr B_DST ((i mod R) * st + i / R) 1 1) (zrange L (R * C)).
 
 Definition ext_dense (es st rows : Z) (b : nat) : Z :=
   if Nat.eqb b B_DST then rows * st * es else 0.
